@@ -50,7 +50,7 @@ def dname(delim):
 
 
 NUMTYPES = {"i1", "u1", "i2", "u2", "i4", "u4", "i8", "u8", "f4", "f8"}
-MECH_INVS = ["MechRefinesModHazards", "HazardsHit", "StepsAgree", "ScanSafe", "RefAccepted"]
+MECH_INVS = ["MechRefinesModHazards", "HazardsHit", "StepsAgree", "ScanSafe", "RefAccepted", "SplitLaws", "WriteLaws"]
 DELIM_INVS = ["CatalogueOK", "DelimIndependent"]
 ROWS_CLAUSES = ("rows_error", "rows_count", "rows_int", "rows_str", "rows_float")
 
@@ -280,10 +280,10 @@ def build_array(ct, delim, order):
     return arr
 
 
-def project_fields(dt):
-    """observable structure of a result dtype"""
+def project_fields(dt, names=None):
+    """observable structure of a result dtype (of the named columns)"""
     out = []
-    for name in dt.names or ():
+    for name in (dt.names or ()) if names is None else names:
         fd = dt.fields[name][0]
         base = fd.base
         bo = base.byteorder
@@ -292,12 +292,12 @@ def project_fields(dt):
     return out
 
 
-def project_rows(arr, fields, delim, expect=None):
+def project_rows(arr, fields, delim, expect=None, names=None):
     """abstraction of the cells.  Fields of float tier "gen" are projected onto the expected
     token when the deviation is within the weak tolerance of the statement (relative
     1e-15 / 1e-6), else onto "off:<value>" (BUILDING.md, exception ii)."""
     rows = []
-    names = arr.dtype.names
+    names = arr.dtype.names if names is None else names
     for r in range(arr.shape[0]):
         row = []
         for i, f in enumerate(fields):
@@ -592,7 +592,7 @@ class Tally:
         self.rows_failed = set()        # (record id, obs index) whose rows did not come back
 
     def add(self, ctx, template, dl, what, case, cap=40):
-        grp = dl.split("/")[1] if "/" in dl else ""
+        grp = dl.split("/")[1] if "/" in dl else ""       # scale signatures carry no group placeholder
         ent = self.pending.setdefault(template, {}).setdefault(grp, [0, []])
         ent[0] += 1
         if len(ent[1]) < cap:
@@ -656,6 +656,355 @@ def judge(ctx, recs, what, tally, meta=None):
 
 
 # ---------------------------------------------------------------------------------
+# SCALE (class S): tables no family can enumerate - 10^5 rows, hundreds of columns, sub-arrays of thousands of
+# elements (lines longer than a stdio block), sfile headers longer than one or several blocks with the END
+# line in every position relative to a block boundary.  TLC exports the cases (ScaleCases of TextCodecMC.tla:
+# a small base table, an axis, a size); the adapter blows the base up, runs the cycle, and cuts what was
+# written and what came back into the same small parts along the axis.  Parts are compared by digest only to
+# find the DISTINCT (written part, observed part) pairs; each distinct pair is abstracted like any small
+# table and judged by TLC through the split laws of TextCodec.tla (TCRowSplitLaw / TCColSplitLaw / TCUnroll),
+# which TLC checks on the bounded families.
+# ---------------------------------------------------------------------------------
+import hashlib
+
+MAX_PARTS = 10
+BASE_NAMES = "abcd"
+
+
+def _scale_big(sc, ct, delim, order, names=None):
+    """the big array of a scale case in the given byte order, and the column plan [(big name, base field index)]"""
+    barr = build_array(ct, delim, order)
+    bf = ct["fields"]
+    p, axis, n = len(bf), sc["axis"], sc["n"]
+    if axis == "rows":
+        return barr[np.arange(n) % len(barr)], [(f["name"], j) for j, f in enumerate(bf)]
+    ocs = order_chars(bf, order)
+    if axis == "elems":
+        descr = [(f["name"], "%s%s%d" % (oc, f["k"], f["w"]), (n,)) for f, oc in zip(bf, ocs)]
+        big = np.zeros(len(barr), dtype=np.dtype(descr))
+        for f in bf:
+            col = barr[f["name"]].reshape(len(barr), -1)
+            big[f["name"]] = np.tile(col, (1, n // col.shape[1] + 1))[:, :n]
+        return big, [(f["name"], j) for j, f in enumerate(bf)]
+    cols = [(names[i], i % p) for i in range(len(names))]
+    descr = []
+    for nm, j in cols:
+        f = bf[j]
+        ts = "%s%s%d" % (ocs[j], f["k"], f["w"])
+        descr.append((nm, ts, tuple(f["sh"])) if f["sh"] else (nm, ts))
+    big = np.zeros(len(barr), dtype=np.dtype(descr))
+    for nm, j in cols:
+        big[nm] = barr[bf[j]["name"]]
+    return big, cols
+
+
+def _marker_offset(path):
+    with open(path, "rb") as f:
+        return f.read(1 << 20).find(b"\nEND\n")
+
+
+def _tune_header(sc, ct, delim):
+    """column names (and a user header) such that the line END of the sfile header starts sc.off bytes after
+    sc.blk: found by writing the table with the real writer and measuring (every name character is one byte)"""
+    from esutil import sfile
+    target = sc["blk"] + sc["off"]
+    p = len(ct["fields"])
+    path = os.path.join(_tmpdir(), "h%d.rec" % os.getpid())
+
+    def measure(names, user):
+        big, _ = _scale_big(dict(sc, axis="cols"), ct, delim, "lt", names)
+        with quiet_fd2():
+            sfile.write(path, big, delim=delim, header=user)
+        m = _marker_offset(path)
+        os.unlink(path)
+        return m
+
+    if sc["user"]:
+        names = ["c%03d" % i for i in range(2 * p)]
+        nkeys = max(1, (target - measure(names, {"k" * 8: 0}) - 8) // 13)
+        user = {"u%05d" % i: i % 7 for i in range(nkeys)}
+        pads = [0]
+        mk = lambda: (names, dict(user, **{"k" * (8 + pads[0]): 0}))     # noqa: E731
+    else:
+        ncols = max(p, (target - 100) // 34)
+        user = None
+        pads = [0] * ncols
+        mk = lambda: (["c%04d%s" % (i, "n" * pads[i]) for i in range(len(pads))], None)   # noqa: E731
+    for _ in range(8):
+        names, usr = mk()
+        m = measure(names, usr)
+        if m == target:
+            return names, usr
+        d = target - m
+        if sc["user"]:
+            pads[0] += d
+            if not 0 <= pads[0] <= 60:
+                user = {"u%05d" % i: i % 7 for i in range(max(1, len(user) + (d - 20) // 13 if d > 0 else len(user) + d // 13 - 1))}
+                pads[0] = 0
+        elif d < 0 and sum(pads) + d < 0:
+            pads = [0] * max(p, len(pads) + d // 34 - 1)
+        else:
+            i = 0
+            while d != 0 and i < 100000:
+                k = i % len(pads)
+                if d > 0 and pads[k] < 30:
+                    pads[k] += 1
+                    d -= 1
+                elif d < 0 and pads[k] > 0:
+                    pads[k] -= 1
+                    d += 1
+                i += 1
+            if d > 0:
+                pads = pads + [0] * (d // 34 + 1)
+    raise MachineryError("could not tune the header of scale case %s to %d bytes" % ({k: sc[k] for k in ("blk", "off", "user")}, target))
+
+
+def _digest(*chunks):
+    h = hashlib.blake2b(digest_size=12)
+    for c in chunks:
+        h.update(c)
+        h.update(b"|")
+    return h.digest()
+
+
+def _ids2d(v):
+    """ids of the rows of the contiguous 2-d byte array v (equal bytes <=> equal id)"""
+    nb = v.shape[0]
+    if nb == 0 or v.shape[1] == 0:
+        return np.zeros(nb, dtype=np.int64)
+    v = np.ascontiguousarray(v).view(np.dtype((np.void, v.shape[1]))).reshape(nb)
+    return np.unique(v, return_inverse=True)[1].reshape(nb).astype(np.int64)
+
+
+def _block_ids(a, rows_per):
+    """ids of the consecutive blocks of rows_per items of the 1-d array a"""
+    nb = a.shape[0] // rows_per
+    if nb == 0:
+        return np.zeros(0, dtype=np.int64)
+    return _ids2d(np.ascontiguousarray(a[:nb * rows_per]).view(np.uint8).reshape(nb, -1))
+
+
+def _first_pairs(ia, ib):
+    """first index of every distinct (ia[i], ib[i]) pair, in order of occurrence"""
+    n = min(len(ia), len(ib))
+    if n == 0:
+        return []
+    key = ia[:n].astype(np.int64) * (int(ib[:n].max()) + 1) + ib[:n]
+    return sorted(int(i) for i in np.unique(key, return_index=True)[1])
+
+
+def _sub_ct(fields, rows):
+    return {"fields": fields, "rows": rows}
+
+
+def _part(wfields, warr, wnames, rarr, rnames, rfields_ok, delim, hdr):
+    """one (written part, observed part) pair as a small table and its observation; w/r names select the columns"""
+    t_rows = project_rows(warr, wfields, delim, names=wnames)
+    ofields = project_fields(rarr.dtype, rnames)
+    for g, nm_ok, wf in zip(ofields, rfields_ok, wfields):
+        g["name"] = wf["name"] if nm_ok else "?" + g["name"]
+    same = [(g["k"], g["w"], g["sh"]) for g in ofields] == [(f["k"], f["w"], f["sh"]) for f in wfields]
+    o_rows = project_rows(rarr, wfields, delim, names=rnames) if same else [[[] for _ in ofields] for _ in range(rarr.shape[0])]
+    fields = [{"name": f["name"], "k": f["k"], "w": f["w"], "sh": f["sh"]} for f in wfields]
+    return {"t": {"fields": fields, "rows": t_rows},
+            "obs": {"entry": "", "order": "", "err": "none", "fields": ofields, "rows": o_rows, "hdr": hdr}}
+
+
+def _hdr_part(hdr, a, b, wnames, wfields):
+    """the header projection restricted to the dtype entries a..b-1, names normalised like the fields"""
+    if not hdr["has"]:
+        return NOHDR
+    ents = []
+    for ent, wn, wf in zip(hdr["dtype"][a:b], wnames, wfields):
+        ents.append(dict(ent, name=wf["name"] if ent["name"] == wn else "?" + ent["name"]))
+    return {"has": True, "delim": hdr["delim"], "dtype": ents}
+
+
+def scale_cycle(job):
+    """job = (id, scale case, instantiated base table, entry, order[, tuned names, user header]) -> scale record"""
+    from esutil import sfile, recfile
+    rid, sc, ct, entry, order, names, user = job
+    delim, axis = chr(sc["dcode"]), sc["axis"]
+    bf = ct["fields"]
+    p = len(bf)
+    if axis == "cols":
+        names = ["c%04d" % i for i in range(sc["n"])]
+    W, cols = _scale_big(sc if axis != "hdr" else dict(sc, axis="cols"), ct, delim, order, names)
+    Wl, _ = _scale_big(sc if axis != "hdr" else dict(sc, axis="cols"), ct, delim, "lt", names)     # what was written, native
+    caxis = "cols" if axis == "hdr" else axis
+    rec = {"id": rid, "dcode": sc["dcode"], "delim": delim, "axis": caxis, "scale": axis, "nw": 0, "no": 0, "hw": 0, "ho": 0,
+           "err": "none", "stage": "", "parts": [], "where": [], "entry": entry, "order": order, "hdr_blocks": 0,
+           "size": {"rows": int(W.shape[0]), "cols": len(cols), "elems": sc["n"] if axis == "elems" else 0}}
+    rec["nw"] = {"rows": int(W.shape[0]), "cols": len(cols), "elems": sc["n"]}[caxis]
+    path = os.path.join(_tmpdir(), "s%d.rec" % os.getpid())
+    hdr = NOHDR
+    try:
+        with quiet_fd2():
+            try:
+                if entry == "sfile":
+                    sfile.write(path, W, delim=delim, header=user)
+                else:
+                    with recfile.Recfile(path, mode="w", delim=delim) as rf:
+                        rf.write(W)
+            except Exception as e:  # noqa
+                rec["err"], rec["stage"] = type(e).__name__, "write"
+                return rec
+            if entry == "sfile":
+                rec["hdr_blocks"] = (_marker_offset(path) + 6) // 8192 + 1
+            try:
+                if entry == "sfile":
+                    R, h = sfile.read(path, header=True)
+                    hdr = project_header(h, delim)
+                else:
+                    with recfile.Recfile(path, mode="r", delim=delim, dtype=W.dtype) as rf:
+                        R = rf.read()
+            except Exception as e:  # noqa
+                rec["err"], rec["stage"] = type(e).__name__, "read"
+                return rec
+        if not isinstance(R, np.ndarray) or R.dtype.names is None or R.ndim != 1:
+            rec["err"], rec["stage"] = "NotATable", "read"
+            return rec
+    finally:
+        try:
+            os.unlink(path)
+        except OSError:
+            pass
+    wnames = [c[0] for c in cols]
+    rnames = list(R.dtype.names)
+    if hdr["has"]:
+        rec["hw"], rec["ho"] = len(cols), len(hdr["dtype"])
+    parts, where = [], []
+
+    def add(part, first, last):
+        if len(parts) < MAX_PARTS:
+            part["obs"]["entry"], part["obs"]["order"] = entry, order
+            parts.append(part)
+            where.append("first" if first else "last" if last else "interior")
+
+    if caxis == "rows":
+        rec["no"] = int(R.shape[0])
+        r = len(ct["rows"])
+        same_cols = len(rnames) == len(wnames)
+        ok = [a == b for a, b in zip(rnames, wnames)] if same_cols else []
+        hp = _hdr_part(hdr, 0, len(wnames), wnames, bf) if same_cols else hdr
+        if not same_cols:
+            rec["err"], rec["stage"] = "FieldCount", "read"
+            return rec
+        Rc = np.ascontiguousarray(R)
+        nb = min(W.shape[0], R.shape[0]) // r
+        for i in _first_pairs(_block_ids(Wl, r), _block_ids(Rc, r)):
+            add(_part(bf, Wl[i * r:(i + 1) * r], wnames, Rc[i * r:(i + 1) * r], rnames, ok, delim, hp), i == 0, i == nb - 1 and W.shape[0] == nb * r)
+        wt, rt = Wl[nb * r:nb * r + r], Rc[nb * r:nb * r + r]
+        if len(wt) or len(rt):
+            add(_part(bf, wt, wnames, rt, rnames, ok, delim, hp), nb == 0, True)
+    elif caxis == "cols":
+        rec["no"] = len(rnames)
+        if R.shape[0] != W.shape[0]:
+            rec["err"], rec["stage"] = "RowCount", "read"
+            return rec
+        seen = set()
+        ng = (min(len(wnames), len(rnames)) + p - 1) // p
+        for g in range(ng):
+            a, b = g * p, min((g + 1) * p, len(wnames), len(rnames))
+            wn, rn = wnames[a:b], rnames[a:b]
+            gf = [bf[cols[i][1]] for i in range(a, b)]
+            ok = [x == y for x, y in zip(wn, rn)]
+            hp = _hdr_part(hdr, a, b, wn, gf) if hdr["has"] and len(hdr["dtype"]) >= b else hdr
+            key = _digest(repr([(f["k"], f["w"], f["sh"]) for f in gf]).encode(), repr(ok).encode(), repr(hp).encode(),
+                          repr([str(R.dtype.fields[x][0]) for x in rn]).encode(),
+                          *[np.ascontiguousarray(Wl[x]).tobytes() for x in wn], *[np.ascontiguousarray(R[x]).tobytes() for x in rn])
+            if key not in seen:
+                seen.add(key)
+                add(_part(gf, Wl, wn, R, rn, ok, delim, hp), g == 0, g == ng - 1)
+    else:       # elems: every field widened to n elements; parts are blocks of L elements of one field
+        L = 2
+        shapes = [R.dtype.fields[x][0].shape for x in rnames]
+        rec["no"] = int(min((s[0] if len(s) == 1 else 0) for s in shapes)) if shapes else 0
+        if len(rnames) != len(wnames) or R.shape[0] != W.shape[0]:
+            rec["err"], rec["stage"] = "FieldOrRowCount", "read"
+            return rec
+        for j, (wn, rn) in enumerate(zip(wnames, rnames)):
+            f = bf[j]
+            wc = np.ascontiguousarray(Wl[wn]).reshape(W.shape[0], -1)
+            rc = np.ascontiguousarray(R[rn]).reshape(R.shape[0], -1)
+            nbl = min(wc.shape[1], rc.shape[1]) // L
+            wb = np.ascontiguousarray(wc[:, :nbl * L].reshape(W.shape[0], nbl, L).transpose(1, 0, 2))
+            rb = np.ascontiguousarray(rc[:, :nbl * L].reshape(R.shape[0], nbl, L).transpose(1, 0, 2))
+            idx = _first_pairs(_ids2d(wb.view(np.uint8).reshape(nbl, -1)), _ids2d(rb.view(np.uint8).reshape(nbl, -1))) if nbl else []
+            blocks = [(i * L, (i + 1) * L) for i in idx]
+            if wc.shape[1] > nbl * L or rc.shape[1] > nbl * L:
+                blocks.append((nbl * L, nbl * L + L))
+            for a, b in blocks:
+                wpart = np.zeros(W.shape[0], dtype=[(f["name"], wc.dtype, (wc[:, a:b].shape[1],))])
+                wpart[f["name"]] = wc[:, a:b]
+                rpart = np.zeros(R.shape[0], dtype=[(rn, rc.dtype, (rc[:, a:b].shape[1],))])
+                rpart[rn] = rc[:, a:b]
+                pf = dict(f, sh=[int(wc[:, a:b].shape[1])])
+                hp = NOHDR if not hdr["has"] else {"has": True, "delim": hdr["delim"],
+                                                   "dtype": [dict(e, name=pf["name"] if e["name"] == wn else "?" + e["name"],
+                                                                  sh=pf["sh"] if e["sh"] == [sc["n"]] else e["sh"])
+                                                             for e in hdr["dtype"][j:j + 1]]}
+                add(_part([pf], wpart, [f["name"]], rpart, [rn], [wn == rn], delim, hp), j == 0 and a == 0, b >= wc.shape[1])
+    rec["parts"], rec["where"] = parts, where
+    return rec
+
+
+def scale_job(job):
+    """job = (first id, scale case, base table, [(entry, order), ...]) -> scale records (header tuning included)"""
+    rid, sc, ct, cycles = job
+    names = user = None
+    if sc["axis"] == "hdr":
+        names, user = _tune_header(sc, ct, chr(sc["dcode"]))
+    return [scale_cycle((rid + n, sc, ct, e, o, names, user)) for n, (e, o) in enumerate(cycles)]
+
+
+def scale_plan(idx, sc, tier):
+    orders = ["lt", "gt"]
+    if sc["axis"] == "hdr":                     # only sfile writes a header
+        return [("sfile", o) for o in (orders if tier == "thorough" else [orders[idx % 2]])]
+    if tier == "thorough":
+        return [(e, o) for e in ("sfile", "recfile") for o in orders]
+    return [("sfile", orders[idx % 2]), ("recfile", orders[(idx + 1) % 2])]
+
+
+def scale_class(rec):
+    return rec["scale"] + ("+header>1block" if rec["hdr_blocks"] > 1 else "")
+
+
+def slim_scale(r):
+    return {"id": r["id"], "dcode": r["dcode"], "axis": r["axis"], "nw": r["nw"], "no": r["no"], "hw": r["hw"], "ho": r["ho"],
+            "err": r["err"], "parts": [{"t": p["t"], "obs": p["obs"]} for p in r["parts"]]}
+
+
+def judge_scale(ctx, recs, what, tally, meta):
+    """scale records -> TLC (TextCodecTrace, split laws); meta: id -> (scale case, base table)"""
+    rejects = tracecheck.validate(ctx, "TextCodecTrace.tla", [slim_scale(r) for r in recs], what=what)
+    byid = {r["id"]: r for r in recs}
+    for rid in sorted(rejects):
+        r = byid[rid]
+        dl = next((c[3:] for c in rejects[rid] if c.startswith("dl:")), "unknown")
+        per = {}
+        for c in rejects[rid]:
+            if not c.startswith(("hz:", "dl:")):
+                k, name = c.split(":", 1)
+                per.setdefault(int(k), []).append(name)
+        for k in sorted(per):
+            where = "whole" if k == 0 else r["where"][k - 1]
+            for clause in sorted(per[k]):
+                stage = ("@" + r["stage"]) if clause == "rows_error" else ""
+                sig = "%s|%s%s|scale=%s|part=%s|delim=%s" % (r["entry"], clause, stage, scale_class(r), where, dl.split("/")[0])
+                sc, ct = meta[rid]
+                case = {"kind": "scale", "sc": sc, "ct": ct, "entry": r["entry"], "order": r["order"], "size": r["size"],
+                        "hdr_blocks": r["hdr_blocks"], "failing": sorted(per[k]), "where": where,
+                        "counts": {k2: r[k2] for k2 in ("nw", "no", "hw", "ho", "err")},
+                        "part": None if k == 0 else r["parts"][k - 1]}
+                tally.add(ctx, sig, "", "%s of a big table (%s: %s, delim %s, order %s), %s part: clause '%s' of C04 violated" %
+                          ("sfile.write/read" if r["entry"] == "sfile" else "Recfile.write/read", scale_class(r),
+                           {k2: v for k2, v in r["size"].items() if v}, dname(r["delim"]), r["order"], where, clause), case)
+    return rejects
+
+
+# ---------------------------------------------------------------------------------
 ACTIONS = ["ChooseLayout", "ChooseRows", "Write", "ReadStrField", "ScanNumField", "Finish"]
 
 
@@ -678,7 +1027,8 @@ def run(ctx):
     tier = ctx.tier
     fams = set(FAMILIES[tier])
     tally = Tally()
-    base = dict(Fams=fams, DClasses={"plain", "tab", "space"}, Reader="pinned", Writer="arg", DelimRun="classes", DoExport=False)
+    base = dict(Fams=fams, DClasses={"plain", "tab", "space"}, Reader="pinned", Writer="arg", DelimRun="classes", ScaleTier=tier,
+                DoExport=False)
     fixed = dict(base, Reader="fixed", DelimRun="plan")
     # 1. design level, every table of every family x every delimiter class:
     #    the pinned scanner meets the round-trip obligation off the named hazards ...
@@ -689,7 +1039,7 @@ def run(ctx):
         #    ... the repaired scanner meets it everywhere, for every delimiter of every table's plan, and the text
         #    written does not depend on the delimiter character (the separator is an argument of printf) ...
         f2 = ex.submit(ctx.tlc, "TextCodecMC.tla", what="repaired scanner refines the round trip for every planned delimiter",
-                       cfg_text=cfg(constants=fixed, invariants=["MechRefines", "StepsAgree", "ScanSafe"] + DELIM_INVS),
+                       cfg_text=cfg(constants=fixed, invariants=["MechRefines", "StepsAgree", "ScanSafe", "SplitLaws"] + DELIM_INVS),
                        workers=max(1, maxw - 2), coverage=False, timeout=3000)
         #    export (spec -> code): tables, their delimiters, the delimiter catalogue
         f3 = ex.submit(ctx.tlc, "TextCodecMC.tla", what="export tables and delimiters",
@@ -765,18 +1115,24 @@ def run(ctx):
             for delim in ds:
                 rjobs.append((len(jobs) + len(rjobs) + 1, ct, delim, plan(n, ct, tier)))
         replay_and_judge(ctx, rjobs, None, tally, "judge seeded larger tables (TextCodecTrace)", None, stats, nsample=1)
+        # 3b. scale cases (class S): big tables judged through the split laws
+        scale_note, scale_probe = run_scale(ctx, r3.records.get("SCALE", []), tally, len(jobs) + len(rjobs) + 100000)
     finally:
         tally.flush(ctx)             # violations established so far stand even if a later stage stops
     # 4. the inherently ambiguous delimiters: observed for the record, nothing is demanded (TLC accepts whatever came back)
     ambiguous = observe_ambiguous(ctx, amb_tables, len(jobs) + len(rjobs))
     # 5. binding self-test: corrupted observations must be rejected, each with its own clause
     selftest(ctx, probe)
+    selftest_scale(ctx, scale_probe)
     ctx.rule = ("every table of the bounded families %s of TextCodecMC.tla (layouts x rows x cell alphabets, exported by TLC), each "
                 "written and read back with the delimiters TLC assigned to it out of the %d single-character delimiters of the "
                 "quantifier (TCQuantDelims of TextCodec.tla: tab, VT, FF, space and every printable ASCII character that neither occurs "
                 "in nor continues the text of a number) - %s - through sfile and recfile in little-, big- and mixed-endian memory "
                 "order; plus %d seeded tables (<= 6 fields of every type, sub-arrays, <= 8 rows, printable ASCII strings, lattice and "
-                "generic floats) with %s; a case is one (table as written, delimiter) pair, distinct by its abstract record, always non-trivial" %
+                "generic floats) with %s; plus the scale cases of TextCodecMC.tla (ScaleCases: 10^5..10^6 rows, 50..1000 columns, sub-arrays of "
+                "512..10^4 elements, sfile headers with the END line at every offset -8..8 around multiples of 4096 bytes up to 64 KiB), cut "
+                "into small parts and judged through the split laws; a case is one (table as written, delimiter) pair, distinct by its "
+                "abstract record, always non-trivial" %
                 (sorted(fam_count), len(quant),
                  "every delimiter for the families %s, the six listed ones and one more (spread by a hash of the table) for the others" % DELIM_FAMILIES[tier]
                  if tier == "thorough" else
@@ -790,6 +1146,7 @@ def run(ctx):
                          "outside_the_quantifier": [dname(d) for d in sorted(CATALOG) if not CATALOG[d]["quant"]],
                          "coverage_min": {k: min(cv[k] for cv in cover.values()) for k in ("tables", "led_number", "delim_in_string")},
                          "ambiguous_observed_round_trips": ambiguous},
+             scale=scale_note,
              mechanism_binding=binding, violations_by_signature=dict(sorted(tally.by_sig.items())),
              undecided=["16th (f8) / 7th (f4) significant digit of floats that need it: decided only to relative 1e-15 / 1e-6 (fields of tier 'gen'); "
                         "equality is demanded on the short-decimal lattice (<= 15 / <= 6 digits, and the 16 / 7 digit values of the text shapes "
@@ -805,6 +1162,66 @@ def run(ctx):
         "'(' is a delimiter inside the quantifier: the scanf of this platform reads \"nan\" without an ISO C n-char-sequence",
     ]
     ctx.trusted_base.append("glibc printf/strtod being correctly rounded (lattice membership)")
+
+
+def run_scale(ctx, cases, tally, first_id):
+    if not cases:
+        raise MachineryError("no scale case exported")
+    tier = ctx.tier
+    rng = random.Random(ctx.seed * 15485863 + 11)
+    cases = sorted(cases, key=lambda c: (c["axis"], c["n"], c["blk"], c["off"], c["user"], c["dcode"], repr(c["base"]["fields"][0])))
+    jobs, meta = [], {}
+    rid = first_id
+    for idx, sc in enumerate(cases):
+        if chr(sc["dcode"]) not in CATALOG or not CATALOG[chr(sc["dcode"])]["quant"]:
+            raise MachineryError("scale case with a delimiter outside the quantifier: %s" % sc["dcode"])
+        ct = instantiate(sc["base"], rng)
+        cyc = scale_plan(idx, sc, tier)
+        jobs.append((rid, sc, ct, cyc))
+        for n in range(len(cyc)):
+            meta[rid + n] = (sc, ct)
+        rid += len(cyc)
+    recs = [r for part in pmap(scale_job, jobs) for r in part]
+    for r in recs:
+        sc = meta[r["id"]][0]
+        ctx.count({"scale": {k: sc[k] for k in ("axis", "n", "blk", "off", "user", "dcode")}, "b": sc["base"]["fields"][0]["k"],
+                   "e": r["entry"], "o": r["order"]})
+    judge_scale(ctx, recs, "judge scale cases through the split laws (TextCodecTrace)", tally, meta)
+    clean = [r for r in recs if r["err"] == "none"]
+    note = {"cases": len(cases), "cycles": len(recs), "parts_judged": sum(len(r["parts"]) for r in recs),
+            "by_axis": {a: sum(1 for c in cases if c["axis"] == a) for a in ("rows", "cols", "elems", "hdr")},
+            "max_rows": max(r["size"]["rows"] for r in recs), "max_cols": max(r["size"]["cols"] for r in recs),
+            "max_elems": max(r["size"]["elems"] for r in recs), "max_header_blocks": max(r["hdr_blocks"] for r in recs),
+            "headers_over_one_block": sum(1 for r in recs if r["hdr_blocks"] > 1)}
+    # vacuity: the sizes were really reached
+    if (note["max_rows"] < 100000 or note["max_cols"] < 700 or note["max_elems"] < 3000 or note["max_header_blocks"] < 3
+            or note["headers_over_one_block"] < 20):
+        raise MachineryError("scale cases did not reach their sizes: %s" % note)
+    probe = next((r for r in clean if r["axis"] == "rows" and r["entry"] == "sfile" and len(r["parts"]) >= 1 and
+                  all(p["t"]["rows"] == p["obs"]["rows"] for p in r["parts"])), None)
+    return note, probe
+
+
+def selftest_scale(ctx, probe):
+    """a scale record binds: a wrong row count, a wrong value in one part and a lost header entry are each rejected"""
+    if probe is None:
+        if ctx.violations:
+            return
+        raise MachineryError("scale self-test: no clean scale record")
+    import copy
+    good = dict(slim_scale(probe), id=1)
+    a, b, c = copy.deepcopy(good), copy.deepcopy(good), copy.deepcopy(good)
+    a["id"], b["id"], c["id"] = 2, 3, 4
+    a["no"] = a["nw"] - 1
+    f0 = b["parts"][-1]["t"]["fields"][0]
+    b["parts"][-1]["obs"]["rows"][0][0] = [["zz"]] if f0["k"] == "S" else ["off"]
+    c["ho"] = c["hw"] + 1
+    saved = ctx.traces
+    rej = tracecheck.validate(ctx, "TextCodecTrace.tla", [good, a, b, c], what="self-test: corrupted scale records rejected", workers=1)
+    ctx.traces = saved
+    want_b = "%d:%s" % (len(b["parts"]), {"S": "rows_str", "f": "rows_float"}.get(f0["k"], "rows_int"))
+    if 1 in rej or "0:rows_count" not in rej.get(2, []) or want_b not in rej.get(3, []) or "0:hdr_dtype" not in rej.get(4, []):
+        raise MachineryError("scale self-test failed: %s" % {k: rej.get(k) for k in (1, 2, 3, 4)})
 
 
 def observe_ambiguous(ctx, tables, first_id):
@@ -926,6 +1343,19 @@ def selftest(ctx, probe):
 
 
 def replay(ctx, case):
+    if case.get("kind") == "scale":
+        recs = scale_job((1, case["sc"], case["ct"], [(case["entry"], case["order"])]))
+        print("replay scale case:", {k: recs[0][k] for k in ("axis", "nw", "no", "hw", "ho", "err", "where", "hdr_blocks", "size")})
+        for k, p in enumerate(recs[0]["parts"]):
+            if p["t"]["rows"] != p["obs"]["rows"]:
+                print("  part %d wrote   :" % (k + 1), p["t"]["rows"])
+                print("  part %d observed:" % (k + 1), p["obs"]["rows"])
+        if not CATALOG:
+            CATALOG[chr(case["sc"]["dcode"])] = {"cls": "", "grp": "", "quant": True}
+        tally = Tally()
+        judge_scale(ctx, recs, "replay", tally, {1: (case["sc"], case["ct"])})
+        tally.flush(ctx)
+        return
     ct, delim = case["ct"], case["delim"]
     rec = run_record((1, ct, delim, [(case["entry"], case["order"])]))
     print("replay wrote   :", rec["t"]["rows"])
